@@ -639,6 +639,12 @@ func (fn *rpcFunc) handleRpcCall(args []reflect.Value) (results []reflect.Value)
 
 	if fn.hasRawParams {
 		serializedParams = json.RawMessage(args[fn.hasCtx].Interface().(RawParams))
+		// the only part of a request that is taken from the caller as bytes: if it
+		// is not JSON the request cannot be written (over WebSocket the attempt
+		// would put an empty message on the wire and leave the call waiting)
+		if !json.Valid(serializedParams) {
+			return fn.processError(fmt.Errorf("marshaling params failed: raw params are not valid JSON"))
+		}
 	} else {
 		params := make([]param, len(args)-fn.hasCtx)
 		for i, arg := range args[fn.hasCtx:] {
